@@ -12,6 +12,7 @@ fn main() {
         "hash-record" => vh::fam_hash::record(&args),
         "hll-record" => vh::fam_hll::record(&args),
         "theta-record" => vh::fam_theta::record(&args),
+        "fi-record" => vh::fam_fi::record(&args),
         "hllu-record" => vh::fam_hll::record_union(&args),
         c => {
             eprintln!("unknown command {c}");
